@@ -101,7 +101,7 @@ theorem subtype_entityOrRecord {τ : CedarType} (h : [CedarType.anyEntity, anyRe
 
 /-! ### soundness of the boolean connectives (rule tables) -/
 
-theorem Sound.bool_cases {w : World} {e : Expr} {τ : CedarType} {c : Capabilities} (h : Sound w e τ c) (hτ : Boolish τ) :
+theorem TySound.bool_cases {w : World} {e : Expr} {τ : CedarType} {c : Capabilities} (h : TySound w e τ c) (hτ : Boolish τ) :
     (∃ err, w.eval e = .error err ∧ Permitted err) ∨
     ∃ b, w.eval e = .ok (.prim (.bool b)) ∧ boolInst b τ = true ∧ (b = true → CapsHold w c) := by
   rcases h with he | ⟨v, hv, hi, hc⟩
@@ -109,47 +109,47 @@ theorem Sound.bool_cases {w : World} {e : Expr} {τ : CedarType} {c : Capabiliti
   · obtain ⟨b, rfl⟩ := inst_boolish hi hτ
     exact Or.inr ⟨b, hv, inst_bool_iff.mp hi, fun hb => hc (by rw [hb])⟩
 
-theorem Sound.of_err {w : World} {e : Expr} {τ : CedarType} {c : Capabilities} {err : ErrClass}
-    (h : w.eval e = .error err) (hp : Permitted err) : Sound w e τ c := Or.inl ⟨err, h, hp⟩
+theorem TySound.of_err {w : World} {e : Expr} {τ : CedarType} {c : Capabilities} {err : ErrClass}
+    (h : w.eval e = .error err) (hp : Permitted err) : TySound w e τ c := Or.inl ⟨err, h, hp⟩
 
-theorem Sound.of_bool {w : World} {e : Expr} {τ : CedarType} {c : Capabilities} {b : Bool}
-    (h : w.eval e = .ok (.prim (.bool b))) (hi : boolInst b τ = true) (hc : b = true → CapsHold w c) : Sound w e τ c :=
+theorem TySound.of_bool {w : World} {e : Expr} {τ : CedarType} {c : Capabilities} {b : Bool}
+    (h : w.eval e = .ok (.prim (.bool b))) (hi : boolInst b τ = true) (hc : b = true → CapsHold w c) : TySound w e τ c :=
   Or.inr ⟨_, h, inst_bool_iff.mpr hi, fun hv => hc (by simpa using hv)⟩
 
 theorem and_sound {w : World} {a b : Expr} {τa τb τ : CedarType} {ca cb c' : Capabilities}
-    (ha : Sound w a τa ca) (hτa : Boolish τa)
-    (hb : CapsHold w ca → Sound w b τb cb) (hτb : Boolish τb)
+    (ha : TySound w a τa ca) (hτa : Boolish τa)
+    (hb : CapsHold w ca → TySound w b τb cb) (hτb : Boolish τb)
     (hτ : ∀ x y : Bool, boolInst x τa = true → (x = true → boolInst y τb = true) → boolInst (x && y) τ = true)
-    (hcaps : CapsHold w ca → CapsHold w cb → CapsHold w c') : Sound w (.and a b) τ c' := by
+    (hcaps : CapsHold w ca → CapsHold w cb → CapsHold w c') : TySound w (.and a b) τ c' := by
   rcases ha.bool_cases hτa with ⟨err, he, hp⟩ | ⟨x, hx, hix, hcx⟩
-  · exact Sound.of_err (by simp [evaluate, he]) hp
+  · exact TySound.of_err (by simp [evaluate, he]) hp
   · cases x with
     | false =>
-      refine Sound.of_bool (b := false) (by simp [evaluate, hx, Value.asBool]) ?_ (fun h => by cases h)
+      refine TySound.of_bool (b := false) (by simp [evaluate, hx, Value.asBool]) ?_ (fun h => by cases h)
       simpa using hτ false false hix (fun h => by cases h)
     | true =>
       have hca := hcx rfl
       rcases (hb hca).bool_cases hτb with ⟨err, he, hp⟩ | ⟨y, hy, hiy, hcy⟩
-      · exact Sound.of_err (by simp [evaluate, hx, he, Value.asBool]) hp
-      · refine Sound.of_bool (b := y) (by simp [evaluate, hx, hy, Value.asBool]) ?_ (fun h => hcaps hca (hcy h))
+      · exact TySound.of_err (by simp [evaluate, hx, he, Value.asBool]) hp
+      · refine TySound.of_bool (b := y) (by simp [evaluate, hx, hy, Value.asBool]) ?_ (fun h => hcaps hca (hcy h))
         simpa using hτ true y hix (fun _ => hiy)
 
 theorem or_sound {w : World} {a b : Expr} {τa τb τ : CedarType} {ca cb c' : Capabilities}
-    (ha : Sound w a τa ca) (hτa : Boolish τa)
-    (hb : Sound w b τb cb) (hτb : Boolish τb)
+    (ha : TySound w a τa ca) (hτa : Boolish τa)
+    (hb : TySound w b τb cb) (hτb : Boolish τb)
     (hτ : ∀ x y : Bool, boolInst x τa = true → (x = false → boolInst y τb = true) → boolInst (x || y) τ = true)
     (hcL : boolInst true τa = true → CapsHold w ca → CapsHold w c')
-    (hcR : boolInst true τb = true → CapsHold w cb → CapsHold w c') : Sound w (.or a b) τ c' := by
+    (hcR : boolInst true τb = true → CapsHold w cb → CapsHold w c') : TySound w (.or a b) τ c' := by
   rcases ha.bool_cases hτa with ⟨err, he, hp⟩ | ⟨x, hx, hix, hcx⟩
-  · exact Sound.of_err (by simp [evaluate, he]) hp
+  · exact TySound.of_err (by simp [evaluate, he]) hp
   · cases x with
     | true =>
-      refine Sound.of_bool (b := true) (by simp [evaluate, hx, Value.asBool]) ?_ (fun _ => hcL hix (hcx rfl))
+      refine TySound.of_bool (b := true) (by simp [evaluate, hx, Value.asBool]) ?_ (fun _ => hcL hix (hcx rfl))
       simpa using hτ true false hix (fun h => by cases h)
     | false =>
       rcases hb.bool_cases hτb with ⟨err, he, hp⟩ | ⟨y, hy, hiy, hcy⟩
-      · exact Sound.of_err (by simp [evaluate, hx, he, Value.asBool]) hp
-      · refine Sound.of_bool (b := y) (by simp [evaluate, hx, hy, Value.asBool]) ?_ (fun h => ?_)
+      · exact TySound.of_err (by simp [evaluate, hx, he, Value.asBool]) hp
+      · refine TySound.of_bool (b := y) (by simp [evaluate, hx, hy, Value.asBool]) ?_ (fun h => ?_)
         · simpa using hτ false y hix (fun _ => hiy)
         · subst h; exact hcR hiy (hcy rfl)
 
@@ -376,9 +376,9 @@ theorem both_ok {ra rb : TcResult} {k : CedarType → Capabilities → CedarType
 
 /-- the three-part invariant -/
 def Good (w : World) (e : Expr) (τ : CedarType) (c' : Capabilities) : Prop :=
-  Sound w e τ c' ∧ (τ = .bool .tt → CapsHold w c')
+  TySound w e τ c' ∧ (τ = .bool .tt → CapsHold w c')
 
-theorem sound_tt {w : World} {g : Expr} {c : Capabilities} (h : Sound w g (.bool .tt) c) : TrueOrPermitted w g := by
+theorem sound_tt {w : World} {g : Expr} {c : Capabilities} (h : TySound w g (.bool .tt) c) : TrueOrPermitted w g := by
   rcases h with he | ⟨v, hv, hi, _⟩
   · exact Or.inr he
   · cases hi; exact Or.inl hv
@@ -397,13 +397,13 @@ theorem euidLiteralType_some {s : Schema} {u : EntityUID} {τ : CedarType} (h : 
   · cases ha : s.action? u <;> simp [ha] at h; exact h.symm
   · cases ha : s.entityType? u.ty <;> simp [ha] at h; exact h.symm
 
-theorem not_sound {w : World} {a : Expr} {τa τ : CedarType} {ca : Capabilities} (ha : Sound w a τa ca) (hb : Boolish τa)
-    (hτ : ∀ x : Bool, boolInst x τa = true → boolInst (!x) τ = true) : Sound w (.unaryApp .not a) τ [] := by
+theorem not_sound {w : World} {a : Expr} {τa τ : CedarType} {ca : Capabilities} (ha : TySound w a τa ca) (hb : Boolish τa)
+    (hτ : ∀ x : Bool, boolInst x τa = true → boolInst (!x) τ = true) : TySound w (.unaryApp .not a) τ [] := by
   rcases ha.bool_cases hb with ⟨err, he, hp⟩ | ⟨x, hx, hix, _⟩
-  · exact Sound.of_err (by simp [evaluate, he]) hp
-  · exact Sound.of_bool (b := !x) (by simp [evaluate, hx, applyUnary, Value.asBool, bind, Except.bind]) (hτ x hix) (fun _ => capsHold_nil w)
+  · exact TySound.of_err (by simp [evaluate, he]) hp
+  · exact TySound.of_bool (b := !x) (by simp [evaluate, hx, applyUnary, Value.asBool, bind, Except.bind]) (hτ x hix) (fun _ => capsHold_nil w)
 
-theorem Sound.long_cases {w : World} {e : Expr} {τ : CedarType} {c : Capabilities} (h : Sound w e τ c) (hτ : τ = .never ∨ τ = .long) :
+theorem TySound.long_cases {w : World} {e : Expr} {τ : CedarType} {c : Capabilities} (h : TySound w e τ c) (hτ : τ = .never ∨ τ = .long) :
     (∃ err, w.eval e = .error err ∧ Permitted err) ∨ ∃ i, w.eval e = .ok (.prim (.int i)) := by
   rcases h with he | ⟨v, hv, hi, _⟩
   · exact Or.inl he
@@ -415,7 +415,7 @@ theorem intOrErr_sound (i : Int) : (intOrErr i = .error .overflow) ∨ intOrErr 
 
 theorem arith_sound {w : World} {op : BinaryOp} {a b : Expr} {τa τb : CedarType} {ca cb : Capabilities}
     (hop : op = .add ∨ op = .sub ∨ op = .mul)
-    (ha : Sound w a τa ca) (hτa : τa = .never ∨ τa = .long) (hb : Sound w b τb cb) (hτb : τb = .never ∨ τb = .long) :
+    (ha : TySound w a τa ca) (hτa : τa = .never ∨ τa = .long) (hb : TySound w b τb cb) (hτb : τb = .never ∨ τb = .long) :
     Good w (.binaryApp op a b) .long [] := by
   rcases ha.long_cases hτa with ⟨err, he, hp⟩ | ⟨i, hi⟩
   · exact Good.err (by simp [evaluate, he]) hp
@@ -433,7 +433,7 @@ theorem arith_sound {w : World} {op : BinaryOp} {a b : Expr} {τa τb : CedarTyp
         · exact Good.value (v := _) (by simp only [World.eval, evaluate, hi, hj, applyBinary, Value.asInt, bind, Except.bind]; exact h) (InstanceOfType.long _)
 
 theorem neg_sound {w : World} {a : Expr} {τa : CedarType} {ca : Capabilities}
-    (ha : Sound w a τa ca) (hτa : τa = .never ∨ τa = .long) : Good w (.unaryApp .neg a) .long [] := by
+    (ha : TySound w a τa ca) (hτa : τa = .never ∨ τa = .long) : Good w (.unaryApp .neg a) .long [] := by
   rcases ha.long_cases hτa with ⟨err, he, hp⟩ | ⟨i, hi⟩
   · exact Good.err (by simp [evaluate, he]) hp
   · rcases intOrErr_sound (-i) with h | h
@@ -508,7 +508,7 @@ theorem ite_bool (c : Prop) [Decidable c] : ∃ bt, (if c then CedarType.bool .t
 theorem getAttr_good {m : ValidationMode} {s : Schema} {w : World} {e : Expr} {a : String} {caps : Capabilities}
     {τe τa : CedarType} {ce : Capabilities} {req : Bool}
     (hWF : SchemaWF s) (hst : StoreConforms s w.es) (hc : CapsHold w caps)
-    (se : Sound w e τe ce) (hme : τe.mono = true)
+    (se : TySound w e τe ce) (hme : τe.mono = true)
     (hshape : τe = .never ∨ (∃ l, τe = .entity l) ∨ ∃ attrs o, τe = .record attrs o)
     (hl : lookupAttr s τe a = some (req, τa)) (hcond : (req || caps.has (Capability.attr e a)) = true) :
     Good w (.getAttr e a) τa [] := by
@@ -552,7 +552,7 @@ theorem getAttr_good {m : ValidationMode} {s : Schema} {w : World} {e : Expr} {a
 theorem hasAttr_good {s : Schema} {w : World} {e : Expr} {a : String} {caps : Capabilities}
     {τe τ : CedarType} {ce c' : Capabilities}
     (hWF : SchemaWF s) (hst : StoreConforms s w.es) (hc : CapsHold w caps)
-    (se : Sound w e τe ce) (hme : τe.mono = true)
+    (se : TySound w e τe ce) (hme : τe.mono = true)
     (hshape : τe = .never ∨ (∃ l, τe = .entity l) ∨ ∃ attrs o, τe = .record attrs o)
     (h : (match lookupAttr s τe a with
       | some (true, _) =>
@@ -572,7 +572,7 @@ theorem hasAttr_good {s : Schema} {w : World} {e : Expr} {a : String} {caps : Ca
       exact ⟨by split; exact ⟨_, rfl⟩; exact ⟨_, rfl⟩, Or.inr rfl⟩
   obtain ⟨⟨bt, hbt⟩, hcs⟩ := hshape_out
   -- it suffices to show soundness: the clause for `True` follows
-  suffices hs : Sound w (.hasAttr e a) τ c' by
+  suffices hs : TySound w (.hasAttr e a) τ c' by
     refine ⟨hs, fun htt => ?_⟩
     rcases hcs with rfl | rfl
     · rw [htt] at hs; exact capHolds_attr (sound_tt hs)
@@ -583,11 +583,11 @@ theorem hasAttr_good {s : Schema} {w : World} {e : Expr} {a : String} {caps : Ca
     · exact capHolds_attr (Or.inl ht)
     · exact capsHold_nil w
   rcases se with ⟨err, he, hp⟩ | ⟨v, hv, hi, _⟩
-  · exact Sound.of_err (hasAttr_err he) hp
+  · exact TySound.of_err (hasAttr_err he) hp
   · rcases hshape with rfl | hshape
     · exact (inst_never hi).elim
     · obtain ⟨p, hp, hcases⟩ := hasAttr_eval (s := s) (a := a) hv hi hme hshape
-      refine Sound.of_bool hp ?_ (fun hpt => hcaps_of_true (by rw [hp, hpt]))
+      refine TySound.of_bool hp ?_ (fun hpt => hcaps_of_true (by rw [hp, hpt]))
       -- the value `p` inhabits the boolean type computed
       split at h
       · -- required attribute
@@ -661,7 +661,7 @@ theorem asLiteral_eval {s : Schema} {env : RequestEnv} {w : World} {a : Expr} {l
   · cases h
 
 theorem eq_good {s : Schema} {env : RequestEnv} {w : World} {a b : Expr} {τa τb : CedarType} {ca cb : Capabilities}
-    (henv : EnvMatches s env w.q) (sa : Sound w a τa ca) (sb : Sound w b τb cb)
+    (henv : EnvMatches s env w.q) (sa : TySound w a τa ca) (sb : TySound w b τb cb)
     (hma : τa.mono = true) (hmb : τb.mono = true) : Good w (.binaryApp .eq a b) (eqType env a b τa τb) [] := by
   rcases sa with ⟨err, he, hp⟩ | ⟨v1, hv1, hi1, _⟩
   · exact Good.err (by simp [evaluate, he]) hp
@@ -1045,10 +1045,10 @@ theorem typeOf_sound_aux {m : ValidationMode} {s : Schema} {env : RequestEnv} {w
         have := isFalse_eq hfalse; subst this
         refine ⟨?_, fun h => by cases h⟩
         rcases sa.bool_cases hba with ⟨err, he, hp⟩ | ⟨x, hx, hix, _⟩
-        · exact Sound.of_err (by simp [evaluate, he]) hp
+        · exact TySound.of_err (by simp [evaluate, he]) hp
         · have : x = false := by simpa [boolInst] using hix
           subst this
-          exact Sound.of_bool (b := false) (by simp [evaluate, hx, Value.asBool]) (by simp [boolInst]) (fun h => by cases h)
+          exact TySound.of_bool (b := false) (by simp [evaluate, hx, Value.asBool]) (by simp [boolInst]) (fun h => by cases h)
       · cases hB : expectOneOf (typeOf m s env b (caps.union ca)) [boolT] with
         | error err => rw [hB] at h; cases h
         | ok pb =>
@@ -1081,10 +1081,10 @@ theorem typeOf_sound_aux {m : ValidationMode} {s : Schema} {env : RequestEnv} {w
         have := isTrue_eq htrue; subst this
         refine ⟨?_, fun _ => sa2 rfl⟩
         rcases sa.bool_cases hba with ⟨err, he, hp⟩ | ⟨x, hx, hix, hcx⟩
-        · exact Sound.of_err (by simp [evaluate, he]) hp
+        · exact TySound.of_err (by simp [evaluate, he]) hp
         · have : x = true := by simpa [boolInst] using hix
           subst this
-          exact Sound.of_bool (b := true) (by simp [evaluate, hx, Value.asBool]) (by simp [boolInst]) (fun _ => hcx rfl)
+          exact TySound.of_bool (b := true) (by simp [evaluate, hx, Value.asBool]) (by simp [boolInst]) (fun _ => hcx rfl)
       · cases hB : expectOneOf (typeOf m s env b caps) [boolT] with
         | error err => rw [hB] at h; cases h
         | ok pb =>
@@ -1143,7 +1143,7 @@ theorem typeOf_sound_aux {m : ValidationMode} {s : Schema} {env : RequestEnv} {w
           obtain ⟨st, st2⟩ := iht (caps.union cc) τt ct hT (capsHold_union.mpr ⟨hc, hcc⟩)
           refine ⟨?_, fun htt => capsHold_union.mpr ⟨st2 htt, hcc⟩⟩
           rcases hcond with ⟨err, he, hp⟩ | ⟨x, hx, hix, _⟩
-          · exact Sound.of_err (by simp [evaluate, he]) hp
+          · exact TySound.of_err (by simp [evaluate, he]) hp
           · have : x = true := by simpa [boolInst] using hix
             subst this
             have heq : w.eval (.ite c t e) = w.eval t := by simp [evaluate, hx, Value.asBool]
@@ -1157,7 +1157,7 @@ theorem typeOf_sound_aux {m : ValidationMode} {s : Schema} {env : RequestEnv} {w
           obtain ⟨se, se2⟩ := ihe caps τ c' h hc
           refine ⟨?_, se2⟩
           rcases hcond with ⟨err, he, hp⟩ | ⟨x, hx, hix, _⟩
-          · exact Sound.of_err (by simp [evaluate, he]) hp
+          · exact TySound.of_err (by simp [evaluate, he]) hp
           · have : x = false := by simpa [boolInst] using hix
             subst this
             have heq : w.eval (.ite c t e) = w.eval e := by simp [evaluate, hx, Value.asBool]
@@ -1181,7 +1181,7 @@ theorem typeOf_sound_aux {m : ValidationMode} {s : Schema} {env : RequestEnv} {w
             have iht' := fun hcc => iht (caps.union cc) τt ct hT (capsHold_union.mpr ⟨hc, hcc⟩)
             refine ⟨?_, fun htt => ?_⟩
             · rcases hcond with ⟨err, he, hp⟩ | ⟨x, hx, hix, hcx⟩
-              · exact Sound.of_err (by simp [evaluate, he]) hp
+              · exact TySound.of_err (by simp [evaluate, he]) hp
               · cases x with
                 | true =>
                   have hcc := hcx rfl
@@ -1345,7 +1345,7 @@ theorem typeOf_sound_aux {m : ValidationMode} {s : Schema} {env : RequestEnv} {w
         · exact ⟨Or.inl ⟨err, by simp [evaluate, he], hp⟩, fun _ => capsHold_nil w⟩
         · obtain ⟨u, rfl, hT⟩ := inst_entity_single hi
           subst hT
-          refine ⟨Sound.of_bool (b := u.ty == ty) (by simp [evaluate, hv, Value.asEntity]) ?_ (fun _ => capsHold_nil w),
+          refine ⟨TySound.of_bool (b := u.ty == ty) (by simp [evaluate, hv, Value.asEntity]) ?_ (fun _ => capsHold_nil w),
             fun _ => capsHold_nil w⟩
           by_cases hty : u.ty = ty
           · subst hty; simp [boolInst]
